@@ -21,7 +21,7 @@ def decl_specs(tier):
         if len(names) == 1 and w == 'a':
             specs.append({'names': list(names), 'wrapper': w, 'local': True})
             specs.append({'names': list(names), 'wrapper': 'b', 'local': True})
-    for c in ('r2i', 'sd', 'od', 'rbag', 'i2d', 'd1q', 'r1', 'rs'):
+    for c in ('r2i', 'sd', 'srd', 'ord', 'rsd', 'od', 'rbag', 'i2d', 'd1q', 'r1', 'rs'):
         for d in ('r2i', 'sd', 'rvec', 'd2', 'b44'):
             specs.append({'names': [c, d], 'wrapper': 'a', 'local': True})
             specs.append({'names': [c, d], 'wrapper': 'a', 'opts': {'generate_for_pack': False, 'generate_for_unpack': False}})
@@ -117,6 +117,39 @@ def check_decl(dc, st, tier, only=None):
             where = mutable_ids(p1)[sorted(shared)[0]]
             st.violate('shared-default', 'two default-constructed %s share the mutable object in field %r | %s' % (dc.P['name'], where, dc.src.replace('\n', '; ')),
                        dc.case(kw={}), dc.snippet('a, b = %s(), %s()\nprint(a.%s is b.%s)' % (dc.P['name'], dc.P['name'], where, where)))
+    # mutate everything mutable that hangs off the first instance in place: a later K() must not see it
+    if p1 is not None:
+        from bisturi.packet import Packet
+
+        def poke(v):
+            if isinstance(v, list):
+                for x in v:
+                    poke(x)
+                v.append(v[0] if v else 0)
+            elif isinstance(v, Packet):
+                for name, f, _, _ in v.get_fields():
+                    if getattr(f, 'holds_no_value', False):
+                        continue
+                    try:
+                        x = getattr(v, name)
+                    except AttributeError:
+                        continue
+                    if isinstance(x, int) and not isinstance(x, bool):
+                        setattr(v, name, x + 1)
+                    elif isinstance(x, bytes):
+                        setattr(v, name, x + b'!')
+                    else:
+                        poke(x)
+        for name, f, _, _ in p1.get_fields():
+            if getattr(f, 'holds_no_value', False):
+                continue
+            try:
+                x = getattr(p1, name)
+            except AttributeError:
+                continue
+            if isinstance(x, (list, Packet)):
+                poke(x)
+        check_kw(dc, st, {}, dflt, 'defaults after another instance was mutated in place')
     # keyword values: from the reference's parses
     vals = []
     for raw, r in ea.inputs_for(dc, 300, ext=False):
